@@ -152,6 +152,7 @@ def gen_assignments(rng, tier):
         out.append(scmd(env, cc, args, dsts, pfp=pfp, avx=1 if rng.random() < 0.3 else 0, lsize=512))
     out += gen_other_archs(rng, tier)
     out += gen_gp_fragment(rng, tier)
+    out += gen_full_boundaries(rng, tier)
     # 6. all 14 free GP registers are destinations (no scratch register left) with stack sources and stack destinations
     for _ in range(40 if tier == "quick" else 600):
         na = rng.randrange(7, 15)
@@ -198,6 +199,47 @@ def gen_gp_fragment(rng, tier):
 
 A64_GP_FREE = list(range(0, 18)) + list(range(19, 29))
 INT32_TYPES = [34, 35, 36, 37, 38, 39]
+
+
+def gen_full_boundaries(rng, tier):
+    """assignments at the case-split boundaries of the proofs about SolverFullModel.v: a GP cycle and a vector cycle in ONE assignment (the pass loop and
+    its work flags are shared by the groups), with and without a stack destination / stack source next to them, SSE and AVX (XMM / YMM / ZMM), x86-64,
+    AArch64 and 32-bit x86; every integer type pair through every kind of move on every target"""
+    out = []
+    sysv = (1, 0, 0)
+    gsrc = [7, 6, 2, 1]
+    for kg in (2, 3):
+        for kv in (2, 3):
+            for pg in itertools.permutations(range(kg)):
+                for pv in itertools.permutations(range(kv)):
+                    for avx, vt, vrt in ((0, 43, 11), (0, 75, 11), (1, 75, 11), (1, 85, 12), (1, 42, 11)):
+                        it = [rng.choice(INT_TYPES) for _ in range(kg)]; dt = [rng.choice(INT_TYPES) for _ in range(kg)]
+                        args = it + [vt] * kv
+                        dsts = [dreg(gp_rt_for(dt[i]), gsrc[pg[i]], dt[i]) for i in range(kg)] + [dreg(vrt, pv[i], FLOAT_AS_VEC.get(vt, vt)) for i in range(kv)]
+                        out.append(scmd(sysv, 0, args, dsts, avx=avx))
+                        # the same with a register -> stack and a stack -> register neighbour
+                        args2 = args + [40] * (6 - kg) + [38, 39]
+                        dsts2 = dsts + [NONE] * (6 - kg - 1) + [dstack(32, 40), dreg(6, 10, 40), dstack(48, 36)]
+                        out.append(scmd(sysv, 0, args2, dsts2, avx=avx, lsize=512))
+                    for env in ((2, 0, 0), (2, 2, 2)):
+                        it = [rng.choice(INT_TYPES) for _ in range(kg)]; dt = [rng.choice(INT_TYPES) for _ in range(kg)]
+                        vt, vrt = rng.choice([(42, 9), (43, 10), (75, 11)])
+                        out.append(scmd(env, 0, it + [vt] * kv, [dreg(gp_rt_for(dt[i]), pg[i], dt[i]) for i in range(kg)] + [dreg(vrt, pv[i], vt) for i in range(kv)]))
+    # AVX-512: ZMM cycles
+    for k in (2, 3):
+        for perm in itertools.permutations(range(k)):
+            out.append(scmd(sysv, 0, [95] * k, [dreg(13, perm[i], 95) for i in range(k)], avx=1, avx512=1))
+            out.append(scmd(sysv, 0, [99] * k + [85], [dreg(13, perm[i], 99) for i in range(k)] + [dstack(64, 85)], avx=1, avx512=1))
+    # every integer type pair, every kind of move: x86-64 with AVX enabled (the GP part must not change), 32-bit fastcall / cdecl
+    for s_ in INT_TYPES:
+        for d_ in INT_TYPES:
+            out.append(scmd(sysv, 0, [s_, 43], [dstack(16, d_), dreg(11, 3, 70)], avx=1))
+            out.append(scmd(sysv, 0, [40] * 6 + [s_, s_], [NONE] * 6 + [dreg(gp_rt_for(d_), 0, d_), dstack(40, d_)], avx=1))
+    for s_ in INT32_TYPES:
+        for d_ in INT32_TYPES:
+            out.append(scmd((0, 1, 1), 2, [s_, s_, s_, s_], [dreg(5, 2, d_), dreg(5, 1, d_), dstack(16, d_), dreg(5, 6, d_)]))        # fastcall: ECX, EDX, 2 x stack
+            out.append(scmd((0, 0, 0), 0, [s_, s_, 75, 75], [dstack(8, d_), dreg(5, 7, d_), dreg(11, 1, 75), dreg(11, 0, 75)]))       # cdecl: stack sources, XMM0/1 swap
+    return out
 
 
 def gen_other_archs(rng, tier):
